@@ -15,11 +15,14 @@ pub mod c07;
 pub mod c08;
 pub mod c09;
 pub mod c10;
+pub mod c12;
+pub mod c13;
 pub mod c14;
 pub mod c15;
 pub mod c16;
 pub mod c18;
 pub mod c19;
+pub mod c20;
 
 macro_rules! table {
     ($($m:ident :: $f:ident),* $(,)?) => {
@@ -65,6 +68,16 @@ table! {
     c10::h_lines,
     c16::h_records,
     c16::h_io_error,
+    c13::h_file,
+    c13::h_str,
+    c13::h_patch,
+    c13::h_patch_algs,
+    c13::h_names,
+    c12::h_verify,
+    c12::h_find,
+    c20::h_iterate,
+    c20::h_filenames,
+    c20::h_is_valid,
     c03::h_laws2,
     c03::h_trans,
     c03::h_api_laws,
